@@ -885,6 +885,15 @@ def opFEMResidual : Op K := fun n a =>
 
 
 
+/-- ints: ny sym ; → rows[2(ny-1)] cols[2(ny-1)] vals[2(ny-1)] of the declared sparsity of MonotonicConstraint -/
+def opMonotonicPattern : Op K := fun n _ =>
+  let ny := n[0]!; let m := 2 * (ny - 1)
+  let o := outVec #[] m (fun k => ((Glue.monoRow k : Nat) : K))
+  let o := outVec o m (fun k => ((Glue.monoCol k : Nat) : K))
+  outVec o m (fun k => Glue.monoVal ny (flag n 1) k)
+
+
+
 def ops : List (String × Op K) := [
   ("ComputeNodes", opComputeNodes),
   ("LoadTransfer", opLoadTransfer),
@@ -971,7 +980,8 @@ def ops : List (String × Op K) := [
   ("GetVectors", opGetVectors),
   ("UnifyComp", opUnifyComp),
   ("MultiJoin", opMultiJoin),
-  ("FEMResidual", opFEMResidual)
+  ("FEMResidual", opFEMResidual),
+  ("MonotonicPattern", opMonotonicPattern)
 ]
 
 end OAS.Driver
